@@ -106,6 +106,12 @@ func (x *Exec) callsiteAsserts(fr *Frame, st *State, c *ssa.CallCommon, site *ss
 			env.vars[fmt.Sprintf("arg%d", k)] = a
 		}
 		env.lookup = func(n string) (Value, bool) { return x.lookupLocalAt(fr, blk, idx, st, n) }
+		if cs.IsUse {
+			// a lemma instance made available at this point (the lemma itself is proved separately)
+			env.goal = false
+			x.vc.assume(Implies(st.Reach, x.lemmaInstance(env, cs.Clause)))
+			continue
+		}
 		g := env.evalBool(cs.Clause.Expr)
 		tag := cs.Tag
 		if tag == "" {
